@@ -307,7 +307,7 @@ class ArgumentParser(ParserDeprecations, ActionsContainer, ArgumentLinking, argp
                 namespace, args = self._parse_known_args(args, namespace, **kwargs)
         except argparse.ArgumentError as ex:
             self.error(str(ex), ex)
-        except SystemExit:
+        except BaseException:
             _ActionPrintConfig.discard_print_config_request(self)
             raise
 
